@@ -20,6 +20,11 @@ MANIFEST = dict(
          "(n <= reference count; witness early_end_byte_count_witness) and is a known finding. Tie to the code on every run: "
          "model = code on the real roll buffer fed through a hook with scripted read histories (capacities 1..65, both growth "
          "policies, sink stops), sequences of searches by one real Searcher (kind 206) = model = fresh Searcher, reader events = slice events = reference, the public search_reader, rg --mmap/--no-mmap/stdin. "
+         "ml_fill_never_truncates / ml_fill_reads_everything (Model/MultiLineBuffer.v: fill_multi_line_buffer_from_reader/_from_file — for every "
+         "stream, read history with short reads / Interrupted / hard errors, heap limit and earlier buffer the multi-line heap buffer ends up "
+         "equal to the whole stream, or the heap-limit error is returned exactly when a limit h is set and the stream has at least h bytes, "
+         "or a read error of the history is returned, always with no sink call; fuel suffices), tied by kind 207 (one real Searcher, scripted "
+         "readers, heap limits, slice sizes compared). "
          "D10 fixed.",
     note="memory maps are searched as slices (mmap.rs only chooses the strategy; CLI comparison); binary detection off as the "
          "property says; failing reads are C16's theorems; trusted: Coq kernel, extraction, driver, harness, hooks "
